@@ -166,8 +166,12 @@ func readLine(br *bufio.Reader) (string, error) {
 			continue
 		}
 		if err != nil {
-			if len(line) > 0 && err == io.EOF {
-				return "", io.ErrUnexpectedEOF
+			if len(line) > 0 {
+				// the stream ended (or was closed) inside a line
+				if err == io.EOF {
+					return "", io.ErrUnexpectedEOF
+				}
+				return "", fmt.Errorf("inside a line (%d bytes): %w", len(line), err)
 			}
 			return "", err
 		}
